@@ -1,5 +1,6 @@
 // Dispatcher of the sequential (single-session) differential harnesses.
 #include <glog/logging.h>
+#include <pthread.h>
 
 #include "ykw.h"
 
@@ -12,11 +13,39 @@ int run_storage(const vf::Args&);
 int run_value(const vf::Args&);
 int run_memusage(const vf::Args&);
 
+static int dispatch(const vf::Args& args);
+
+namespace {
+struct Boot {
+    const vf::Args* args;
+    int rc;
+};
+void* boot(void* p) {
+    auto* b = static_cast<Boot*>(p);
+    b->rc = dispatch(*b->args);
+    return nullptr;
+}
+} // namespace
+
 int main(int argc, char** argv) {
     google::InitGoogleLogging(argv[0]);
     FLAGS_logtostderr = true;
     FLAGS_minloglevel = 0;
     vf::Args args(argc, argv);
+    // The walker (and the library's own per-layer recursion in scan / destroy / mem_usage) descends one level per 8
+    // key bytes; the "huge key" programs build several thousand trie layers, which does not fit the default 8 MiB
+    // stack under ASan. Run the harness on a thread with a large (lazily committed) stack.
+    pthread_attr_t attr;
+    pthread_attr_init(&attr);
+    pthread_attr_setstacksize(&attr, static_cast<size_t>(1) << 30U);
+    Boot b{&args, 2};
+    pthread_t th{};
+    if (pthread_create(&th, &attr, boot, &b) != 0) { return dispatch(args); }
+    pthread_join(th, nullptr);
+    return b.rc;
+}
+
+static int dispatch(const vf::Args& args) {
     // under valgrind the tool replaces operator new/delete itself: run without the registry (--alloc=off)
     vf::setup_alloc(args.str("alloc", "full") == "off" ? vf::alloc::Mode::OFF : vf::alloc::Mode::FULL);
     vf::ctl::install();
